@@ -51,6 +51,21 @@ Definition value_ok (v : str) : bool :=
      | _ :: ls => forallb (fun l => starts_cont l && negb (blank l)) ls
      end.
 
+Definition ends_lf (s : str) : bool :=
+  match last_opt s with Some c => is_lf c | None => false end.
+
+(** ... and, for editing, the value does not end inside a comment: its last line is not a
+    comment line that lacks its newline (a field's value never ends with a comment line at
+    all in a parsed document: such a line belongs to what follows) *)
+Definition closed_value (v : str) : bool :=
+  match lines_lf v with
+  | [] => true
+  | _ :: ls => match last_opt ls with
+               | Some l => negb (is_comment_line l) || ends_lf l
+               | None => true
+               end
+  end.
+
 (** a value that can be stored in a list of that kind without changing its reading *)
 Definition good_value (comma : bool) (x : str) : bool :=
   nonempty_str x
